@@ -93,6 +93,33 @@ def validateTable (t : TableShape) : Except TableErr Unit :=
     else .ok ()
   else .error .noData
 
+/-! ### signatures of `[Potential-Form]` entries
+
+The formula language is case-insensitive: the symbol table of a custom form is keyed by the lower-cased name.  `bindParams` is what
+`_Cexptrk_Potential_Function.__call__` does (one write per parameter, in signature order), `lookupParam` what the expression reads. -/
+
+/-- `for (pn, v) in zip(parameter_names, args): symbol_table.variables[pn] = v` on a case-insensitive table: the writes, in order -/
+def bindParams : List String → List Rat → List (String × Rat)
+  | n :: ns, v :: vs => (n.toLower, v) :: bindParams ns vs
+  | _, _ => []
+
+/-- the value the expression sees for a name: the most recent write under that (case-folded) name -/
+def lookupParam : List (String × Rat) → String → Option Rat
+  | [], _ => none
+  | (k, v) :: rest, n =>
+    match lookupParam rest n with
+    | some x => some x
+    | none => if k == n.toLower then some v else none
+
+/-- the check added by the `fix:` commit: the first parameter that is, up to case, an earlier one -/
+def sigClash : List String → List String → Option (String × String)
+  | _, [] => none
+  | seen, n :: ns => match seen.find? (fun s => s.toLower == n.toLower) with
+    | some s => some (s, n)
+    | none => sigClash (seen ++ [n]) ns
+
+def validSignature (ns : List String) : Bool := (sigClash [] ns).isNone
+
 /-- documented target names, synonyms included -/
 def documentedTargets : List String :=
   ["DL_POLY", "DLPOLY", "DL_POLY_EAM_fs", "DL_POLY_EAM", "eam_adp", "excel", "excel_eam", "excel_eam_fs", "GULP", "LAMMPS_eam_alloy", "setfl", "LAMMPS", "setfl_fs"]
